@@ -5,6 +5,7 @@ use crate::engine::*;
 pub fn subs() -> Vec<Box<dyn DynSub>> {
   let mut v: Vec<Box<dyn DynSub>> = all_subs("C12").into_iter().map(|s| Box::new(s) as Box<dyn DynSub>).collect();
   v.push(Box::new(crate::c11::ClockCrossing { pid: "C12" }));
+  v.push(Box::new(crate::c11::TightCrossing { pid: "C12" }));
   v.push(Box::new(crate::c11::WhileOthersValidate { pid: "C12" }));
   v
 }
